@@ -1,5 +1,6 @@
 from __future__ import annotations
 
+import copy
 import random
 import re
 import string
@@ -226,9 +227,11 @@ class SigmaFilter(SigmaRuleBase):
             if not any(name.startswith(prefix) for name in rule.detection.detections):
                 break
 
-        # Rename every filter detection identifier with the shared prefix.
+        # Rename every filter detection identifier with the shared prefix. Each rule gets its own
+        # copy of the filter detections: processing pipelines modify detection items in place, so
+        # sharing them would apply transformations once per rule the filter was applied to.
         for original_cond_name, condition in self.filter.detections.items():
-            rule.detection.detections[prefix + "_" + original_cond_name] = condition
+            rule.detection.detections[prefix + "_" + original_cond_name] = copy.deepcopy(condition)
 
         # Rewrite the filter condition string so that every identifier/pattern token is
         # prefixed.  This handles:
